@@ -4,6 +4,7 @@ CONSTANTS
  Variants <- TVariants
  NBk <- TNBk
  Inits <- TInits
+ RouteInits <- TInits
  Runs <- TRuns
  QueuePersists = TRUE
  Crash1 <- TAllPts
@@ -16,6 +17,7 @@ CONSTANTS
  DevSeqOpenEarly = FALSE
  DevLinkDirect = FALSE
  DevBackupCount = FALSE
+ DevRouteDiscard = FALSE
 INVARIANT NoEarlyEffect
 INVARIANT SuccessState
 INVARIANT OthersKept
